@@ -73,8 +73,8 @@ func runC06(c *core.Ctx) {
 
 	type docCase struct {
 		expect, r0, r1, mut string
-		builtin            string
-		toks               []gen.Tok
+		builtin             string
+		toks                []gen.Tok
 	}
 	feats := map[string]int{}
 	cases := make([]docCase, nDocs)
@@ -144,6 +144,13 @@ func runC06(c *core.Ctx) {
 		c.CheckCase(w, "ps", thm, []byte("1"), []byte("0"), []byte("0"), []byte(wide[i]))
 	})
 	c.Count("wide_deep_and_misplaced_constructs", int64(len(wide)))
+	// constant positions, the small-scope type systems and the scale family, as texts to parse
+	extra := append(ConstSites(), schemaSmallScope()...)
+	extra = append(extra, ScaleSchemasUpTo(300, 4097)...)
+	c.Pool.ParFor(len(extra), func(w, i int) {
+		c.CheckCase(w, "ps", thm, []byte("1"), []byte("0"), []byte("0"), []byte(extra[i]))
+	})
+	c.Count("constant_sites_small_scope_and_scale_documents", int64(len(extra)))
 	// several sources in one call, built-in or not, the same names again with other contents:
 	// ParseSchemas is a function of the sources it is given
 	nMulti := nDocs / 10
@@ -169,4 +176,47 @@ func runC06(c *core.Ctx) {
 	for i := 0; i < 3; i++ {
 		c.Sample(map[string]string{"document": cases[i].r1, "mutant": cases[i].mut})
 	}
+}
+
+// ConstSites: every place of a type-system document where a value can stand (default values of field
+// arguments, interface field arguments, input fields and directive arguments, in definitions and in
+// extensions; the arguments of a directive applied at each of the twenty sites a directive can be
+// applied) with every shape of value that contains a variable or does not: everything in a type-system
+// document is constant.
+func ConstSites() []string {
+	dsites := []string{
+		"schema @d(x: %s) { query: Q }", "extend schema @d(x: %s)", "scalar S @d(x: %s)", "extend scalar S @d(x: %s)", "type T @d(x: %s) { a: Int }", "extend type T @d(x: %s)",
+		"type T { a: Int @d(x: %s) }", "type T { a(b: Int @d(x: %s)): Int }", "type T { a(b: Int = 1 @d(x: %s), c: Int): Int }", "directive @y(b: Int @d(x: %s)) on FIELD",
+		"interface T @d(x: %s) { a: Int }", "extend interface T @d(x: %s)", "interface T { a: Int @d(x: %s) }", "interface T { a(b: Int @d(x: %s)): Int }", "union U @d(x: %s) = A", "extend union U @d(x: %s)",
+		"enum E @d(x: %s) { A }", "extend enum E @d(x: %s)", "enum E { A @d(x: %s) }", "input I @d(x: %s) { a: Int }", "extend input I @d(x: %s)", "input I { a: Int @d(x: %s) }",
+		"extend type T { a(b: Int @d(x: %s)): Int }", "extend input I { a: Int = 1 @d(x: %s) }", "extend enum E { A @d(x: %s) }", "type T implements I @d(x: %s) { a: Int }",
+		"type T { a(b: Int = %s): Int }", "interface T { a(b: Int = %s): Int }", "input I { a: Int = %s }", "directive @y(b: Int = %s) on FIELD", "extend type T { a(b: Int = %s): Int }",
+		"extend input I { a: Int = %s }", "extend interface T { a(b: Int = %s): Int }", "input I { a: Int = %s @d }", "type T { a(b: Int = %s @d): Int @d }",
+	}
+	vals := []string{"$v", "[$v]", "{k: $v}", "[[1, {k: [$v]}]]", "1", "[1]", "{k: 1}", "[[1, {k: [E]}]]", "$", "{k: $}"}
+	var out []string
+	for _, st := range dsites {
+		for _, v := range vals {
+			out = append(out, strings.Replace(st, "%s", v, 1))
+		}
+	}
+	return out
+}
+
+// ConstSitesQuery: the same for executable documents: default values of variables are constant; directive
+// and field arguments are not.
+func ConstSitesQuery() []string {
+	sites := []string{
+		"query($a: Int = %s) { a }", "query($a: [Int] = %s, $b: Int) { a }", "query($a: Int @d(x: %s)) { a }", "query($a: Int = 1 @d(x: %s)) { a }", "fragment F($a: Int = %s) on T { a }",
+		"{ a(x: %s) }", "{ a @d(x: %s) }", "query @d(x: %s) { a }", "query Q($a: Int) @d(x: %s) { a }", "{ ...F @d(x: %s) }", "{ ... @d(x: %s) { a } }", "{ ... on T @d(x: %s) { a } }",
+		"fragment F on T @d(x: %s) { a }", "{ a { b(x: %s) @d(y: %s) } }", "mutation { a(x: %s) }", "subscription S @d(x: %s) { a }",
+	}
+	vals := []string{"$v", "[$v]", "{k: $v}", "[[1, {k: [$v]}]]", "1", "[1]", "{k: 1}", "[[1, {k: [E]}]]", "$", "{k: $}"}
+	var out []string
+	for _, st := range sites {
+		for _, v := range vals {
+			out = append(out, strings.ReplaceAll(st, "%s", v))
+		}
+	}
+	return out
 }
